@@ -271,6 +271,7 @@ class Ctx:
         goal = unwrap(goal)
         if isinstance(goal, bool):
             goal = z3.BoolVal(goal)
+        goal = poly_normalise(goal)
         hyps = relevant(self.hypotheses(extra_terms), goal)
         self.obligations.append(
             Obligation(name, hyps, goal, list(self.prefix[: self.cursor]), kind, meta, getvals)
@@ -332,6 +333,41 @@ def relevant(hyps, goal):
                 rest.append((h, syms))
         pending = rest
     return base + kept
+
+
+def poly_normalise(goal):
+    """an equality a == b (possibly under an implication) whose difference cancels in the sum-of-monomials
+    normal form is valid by polynomial arithmetic alone; it is replaced by `true` under the same antecedent so
+    that the non-linear solver does not have to rediscover the cancellation (everything else is left alone)"""
+    try:
+        if z3.is_app(goal) and goal.decl().kind() == z3.Z3_OP_IMPLIES:
+            ant, con = goal.children()
+            # literals of the antecedent decide the matching if-then-else conditions inside the consequent
+            lits = []
+            stack = [ant]
+            while stack:
+                t = stack.pop()
+                if z3.is_app(t) and t.decl().kind() == z3.Z3_OP_AND:
+                    stack.extend(t.children())
+                elif z3.is_app(t) and t.decl().kind() == z3.Z3_OP_NOT:
+                    lits.append((t.arg(0), z3.BoolVal(False)))
+                elif z3.is_bool(t) and not z3.is_true(t):
+                    lits.append((t, z3.BoolVal(True)))
+            con_s = z3.simplify(z3.substitute(con, *lits)) if lits else con
+            con2 = poly_normalise(con_s)
+            return z3.Implies(ant, con2) if lits or con2 is not con_s else goal
+        if z3.is_app(goal) and goal.decl().kind() == z3.Z3_OP_AND:
+            ch = [poly_normalise(c) for c in goal.children()]
+            return z3.And(*ch)
+        if z3.is_app(goal) and goal.decl().kind() == z3.Z3_OP_EQ:
+            a, b = goal.children()
+            if z3.is_real(a) or z3.is_int(a):
+                dlt = z3.simplify(a - b, som=True)
+                if (z3.is_rational_value(dlt) or z3.is_int_value(dlt)) and dlt.as_fraction() == 0:
+                    return z3.BoolVal(True)
+    except z3.Z3Exception:
+        pass
+    return goal
 
 
 def ctx() -> Ctx:
